@@ -122,6 +122,7 @@ Lemma generated_inside_root_proof : forall root pkg g p,
 Proof.
   intros root pkg g p Habs. unfold site_gen.
   destruct (repo_source_path pkg g) as [q|] eqn:Q; [|discriminate].
+  destruct (str_eqb q [c_dot] || str_eqb q [c_slash]); [discriminate|].
   intros H. inversion H as [Hp]. clear H.
   assert (~ In dotdot (split_on c_slash q)) as Hq.
   { destruct g as [|g0 g']; [discriminate Q|].
